@@ -26,7 +26,7 @@ def nontrivial(prop, s):
 def scripts_for(prop, tier, rng):
     q = tier == "quick"
     if prop == "C01":
-        return workgen.flow_scripts(rng, 1200 if q else 12000) + workgen.error_scripts(rng, 200 if q else 1000)
+        return workgen.flow_scripts(rng, 1400 if q else 14000)
     if prop == "C02":
         return workgen.window_scripts(rng, 1000 if q else 10000)
     if prop == "C15":
